@@ -4,6 +4,9 @@
    point, over a truth table in which validators have none, one or two duties and a reorg changes both the
    contents and who has duties.
 
+   Beacon-node failure: up to MaxFail beacon calls fail (FetchFail instead of Fetch, at any point the call could
+   have been answered); the failing request returns an error and must leave no trace in the cache.
+
    Reduction (by hand, sound for the invariants checked): steps that only touch the request's / the maintenance
    call's own record are taken as soon as they are enabled (Return, Deliver, ReadGen right after Call, InvBump right
    after InvCall, InvRet / TrimRet right after the last critical section).  Delaying them instead only yields
@@ -11,8 +14,8 @@
    floor; a later Return a higher upper version bound), see the comments at the actions.  Lookup, Fetch,
    StoreOrAmend, InvTrim, TrimStep -- the steps that read or write shared state -- interleave freely. *)
 EXTENDS DutiesCache
-CONSTANTS MaxCalls, MaxVer, MaxInv, MaxTrim
-VARIABLE used        \* [calls, invs, trims] spent so far
+CONSTANTS MaxCalls, MaxVer, MaxInv, MaxTrim, MaxFail
+VARIABLE used        \* [calls, invs, trims, fails] spent so far
 mcvars == <<vars, used>>
 K1 == <<"sync">>
 K2 == <<"prop", "sync">>
@@ -23,10 +26,10 @@ TableA(k) == {T(k, 1, 2, 0, 2), T(k, 1, 3, 0, 1), T(k, 2, 1, 0, 1), T(k, 2, 2, 0
               T(k, 1, 1, 1, 1), T(k, 1, 2, 1, 2), T(k, 1, 3, 1, 1), T(k, 2, 2, 1, 1), T(k, 2, 3, 1, 1),
               T(k, 1, 1, 2, 1), T(k, 2, 1, 2, 2), T(k, 2, 3, 2, 1)}
 MCAsg == UNION {TableA(k) : k \in KindSet}
-MCInit == InitCache /\ asg = MCAsg /\ used = [calls |-> 0, invs |-> 0, trims |-> 0]
+MCInit == InitCache /\ asg = MCAsg /\ used = [calls |-> 0, invs |-> 0, trims |-> 0, fails |-> 0]
 MaxE == CHOOSE e \in Epochs : \A f \in Epochs : f <= e
 MinE == CHOOSE e \in Epochs : \A f \in Epochs : f >= e
-Local == \/ \E r \in Reqs : Return(r) \/ Deliver(r) \/ ReadGen(r)
+Local == \/ \E r \in Reqs : Return(r) \/ ReturnErr(r) \/ Deliver(r) \/ ReadGen(r)
          \/ InvBump \/ InvRet \/ TrimRet
 MCNext ==
   IF ENABLED Local THEN Local /\ UNCHANGED used
@@ -38,6 +41,8 @@ MCNext ==
         \/ \E e0 \in (Epochs \cup {MinE - 1}) \ {MaxE} : tv[MaxE] < MaxVer /\ Reorg(e0)
         \/ \E o \in outs : o \ dirty # {} /\ Mutate(o)
         \/ InvTrim \/ TrimStep
+  \/ /\ used.fails < MaxFail /\ used' = [used EXCEPT !.fails = @ + 1]
+     /\ \E r \in Reqs : FetchFail(r)
   \/ /\ used.invs < MaxInv /\ used' = [used EXCEPT !.invs = @ + 1]
      /\ \E e0 \in (Epochs \cup {MinE - 1}) \ {MaxE} : InvCall(e0)
   \/ /\ used.trims < MaxTrim /\ used' = [used EXCEPT !.trims = @ + 1]
@@ -45,7 +50,7 @@ MCNext ==
 MCSpec == MCInit /\ [][MCNext]_mcvars
 \* `last` does not influence behaviour; two states that differ only in a `last` that satisfies the invariants
 \* have the same future, so the fingerprint keeps only whether it does
-LastOK == AnswerEqualsBN /\ FreshAfterInvalidate /\ PrivateCopies
+LastOK == AnswerEqualsBN /\ FreshAfterInvalidate /\ PrivateCopies /\ NoPartialOnError
 View == <<asg, tv, has, requested, cached, meta, gen, rq, mt, floor, nfetch, dirty, outs, LastOK, used>>
 ReqSym == Permutations(Reqs)
 ====
